@@ -397,6 +397,7 @@ def unrelated_names(task):
         for mod in TASKS + ["util"]:
             m = getattr(mir_eval, mod)
             for f in vars(m).values():
+                f = _real(f)
                 if inspect.isfunction(f) and f.__module__ == m.__name__:
                     c = f.__code__
                     start = c.co_argcount + c.co_kwonlyargcount + bool(c.co_flags & 0x04) + bool(c.co_flags & 0x08)
@@ -837,6 +838,18 @@ def enc_kw(kw):
 _CODES = None
 
 
+def _ckey(co):
+    """identity of a code object that survives a re-executed module (importlib.reload) — the code objects are new, their
+    file / name / first line are not"""
+    return (co.co_filename, co.co_name, co.co_firstlineno)
+
+
+def _real(f):
+    """the library function behind a harness/recycle.py wrapper (installed in the modules' namespaces by an earlier
+    correspondence case of the same worker process)"""
+    return getattr(f, "_recycle_real", f)
+
+
 def _codes():
     global _CODES
     if _CODES is None:
@@ -844,9 +857,23 @@ def _codes():
         for mod in TASKS + ["util"]:
             m = getattr(mir_eval, mod)
             for name, f in vars(m).items():
+                f = _real(f)
                 if inspect.isfunction(f) and f.__module__ == m.__name__:
-                    _CODES[f.__code__] = "%s.%s" % (mod, name)
+                    _CODES[_ckey(f.__code__)] = "%s.%s" % (mod, name)
     return _CODES
+
+
+def _harness_frame(frame):
+    fn = frame.f_code.co_filename
+    return fn.startswith("<recycle:") or fn.endswith(("recycle.py", "relcheck.py"))
+
+
+def _caller(frame):
+    """the nearest calling frame that is not one of the harness's forwarding wrappers"""
+    back = frame.f_back
+    while back is not None and _harness_frame(back):
+        back = back.f_back
+    return back
 
 
 def _plain(v):
@@ -860,23 +887,23 @@ def trace_evaluate(task, d, kw):
     for the calls made directly by evaluate() or by filter_kwargs on its behalf; only keyword-capable
     parameters with plain values are reported."""
     module = getattr(mir_eval, task)
-    ev_code = module.evaluate.__code__
-    fk_code = mir_eval.util.filter_kwargs.__code__
+    ev_code = _ckey(_real(module.evaluate).__code__)
+    fk_code = _ckey(_real(mir_eval.util.filter_kwargs).__code__)
     codes = _codes()
     rec = []
 
     def prof(frame, event, arg):
         if event != "call":
             return
-        name = codes.get(frame.f_code)
+        name = codes.get(_ckey(frame.f_code))
         if name is None or name in ("util.filter_kwargs", "util.has_kwargs"):
             return
-        back = frame.f_back
+        back = _caller(frame)
         via = False
-        if back is not None and back.f_code is fk_code:
+        if back is not None and _ckey(back.f_code) == fk_code:
             via = True
-            back = back.f_back
-        if back is None or back.f_code is not ev_code:
+            back = _caller(back)
+        if back is None or _ckey(back.f_code) != ev_code:
             return
         co = frame.f_code
         params = list(co.co_varnames[:co.co_argcount + co.co_kwonlyargcount])
@@ -894,11 +921,19 @@ def trace_evaluate(task, d, kw):
 
     args = materialize(task, d)
     old = sys.getprofile()
+    # the call trace is observed on the library's own calls: with the recycling wrappers switched off they only forward
+    # (a wrapper that is on calls its function twice, once on a same-shaped variant)
+    rstate = sys.modules["recycle"]._STATE if "recycle" in sys.modules else None
+    ron = rstate["on"] if rstate is not None else False
+    if rstate is not None:
+        rstate["on"] = False
     sys.setprofile(prof)
     try:
         res = module.evaluate(*args, **dict(kw))
     finally:
         sys.setprofile(old)
+        if rstate is not None:
+            rstate["on"] = ron
     return [rec, list(res.keys())]
 
 
